@@ -87,6 +87,11 @@ func gen(tier string, seed int64) []hx.Scenario {
 		}
 	}
 	var out []hx.Scenario
+	for n := 2; n <= maxN; n++ {
+		for t := 2; t <= n; t++ {
+			out = append(out, hx.Scenario{Name: "pedersen-aggregator", Cfg: fmt.Sprintf("n=%d t=%d", n, t), Run: func(x *hx.Ctx) { pedAggregator(x, n, t) }})
+		}
+	}
 	for _, h := range hs {
 		out = append(out, hx.Scenario{Name: "pedersen", Cfg: h.String(), Run: func(x *hx.Ctx) { pedRun(x, h) }})
 		out = append(out, hx.Scenario{Name: "rabin", Cfg: h.String(), Run: func(x *hx.Ctx) { rabRun(x, h) }})
